@@ -2,12 +2,15 @@
    Proved: a reported segment/polygon intersection is a common point of two edges (never yes for
    separated polygons); the disc and disc-molecule tests are EXACT (yes iff the open discs share a point);
    every test gives the same answer with the arguments swapped.
-   NOT proved (C12 is claimed partial): that overlapping convex polygons always have a crossing edge
-   pair with parameters in [0,1] (the completeness direction for polygons), and invariance under a
-   common rigid motion.  The known findings D12/D13 show that in binary64 both fail at exactly
-   aligned configurations. *)
+   Completeness for convex polygons (C12_convex_overlap_detected): two closed convex polygons with a common
+   interior point, neither with all its vertices strictly inside the other, have an edge pair satisfying
+   the segment predicate - so the polygon test says yes (C12_exit_through_an_edge is the key step;
+   C12_hypotheses_satisfiable shows the hypotheses are met by two overlapping squares).
+   NOT proved: invariance under a common rigid motion as a theorem about the test itself (it follows for
+   the exact answers from the two directions above).  The known findings D12/D13 show that in binary64
+   the completeness direction fails at exactly aligned configurations (the reals theorem does not). *)
 From Coq Require Import ZArith List Bool Reals. Import ListNotations.
-From PV Require Import Num NumR model.Geom proofs.LatticeFacts proofs.SiteFacts proofs.OverlapFacts proofs.PackingFacts.
+From PV Require Import Num NumR model.Geom proofs.LatticeFacts proofs.SiteFacts proofs.OverlapFacts proofs.ConvexFacts proofs.PackingFacts.
 
 Theorem C12_seg_yes_gives_common_point :
   forall s o : segR, seg_intersects NumR s o = true -> exists ta tb : R, (0 <= ta <= 1)%R /\ (0
@@ -58,4 +61,30 @@ Theorem C12_seg_intersects_spec :
     o <= 1)%R /\ (0 <= numb s o / den s o <= 1)%R.
 Proof. exact seg_intersects_spec. Qed.
 Print Assumptions C12_seg_intersects_spec.
+
+Theorem C12_convex_overlap_detected :
+  forall (sP sQ : R) (P Q : list segR) (x : pt), convex sP P -> convex sQ Q -> closed P ->
+    closed Q -> strictly_inside sP P x -> strictly_inside sQ Q x -> (exists e : segR, In e P /\
+    ~ strictly_inside sQ Q (seg_start e)) -> (exists f : segR, In f Q /\ ~ strictly_inside sP P
+    (seg_start f)) -> shape_intersects NumR (Poly P) (Poly Q) = true.
+Proof. exact convex_overlap_detected. Qed.
+Print Assumptions C12_convex_overlap_detected.
+
+Theorem C12_exit_through_an_edge :
+  forall (sigma : R) (Q : list segR) (p0 p1 : pt), convex sigma Q -> strictly_inside sigma Q p0
+    -> (exists e : segR, In e Q /\ (side sigma e p1 <= 0)%R) -> exists (e : segR) (t s : R), In
+    e Q /\ (0 < t <= 1)%R /\ (0 <= s <= 1)%R /\ lerp p0 p1 t = lerp (seg_start e) (seg_end e) s
+    /\ (0 < side sigma e p0)%R /\ (side sigma e p1 <= 0)%R /\ inside_closed sigma Q (lerp p0 p1
+    t).
+Proof. exact exit_through_an_edge. Qed.
+Print Assumptions C12_exit_through_an_edge.
+
+Theorem C12_hypotheses_satisfiable :
+  let P := square 0 0 in let Q := square (1 / 2) (1 / 2) in convex 1 P /\ convex 1 Q /\ closed P
+    /\ closed Q /\ strictly_inside 1 P ((3 / 4)%R, (3 / 4)%R) /\ strictly_inside 1 Q ((3 / 4)%R,
+    (3 / 4)%R) /\ (exists e : segR, In e P /\ ~ strictly_inside 1 Q (seg_start e)) /\ (exists f
+    : segR, In f Q /\ ~ strictly_inside 1 P (seg_start f)) /\ shape_intersects NumR (Poly P)
+    (Poly Q) = true.
+Proof. exact overlapping_squares_meet_the_hypotheses. Qed.
+Print Assumptions C12_hypotheses_satisfiable.
 
